@@ -1088,8 +1088,23 @@ def check_c17(run):
         run.samples.append("[%s/idem] %d events over the ordinary-web-URL grammar (schemes %s, hosts %s) with up to %d re-spelled characters" % (gf.name, n, gf.schemes, gf.hosts, gf.k))
         absorb_events(run, bad, gf.name)
         run.distinct += n
-    # pinned reproducers of the open findings (re-run on every invocation; they print KNOWN-FINDING while they still fail)
+    # (3) scan: a token-generated space two orders of magnitude larger than TLC can validate event by event is explored by the driver on the real
+    #     code (canonicalize twice); the (input, profile) pairs on which the fixed-point law FAILS, and every 2000th other pair, become events that
+    #     TLC validates like all others (law, exact prediction, finding tags). Tokens are percent-encoded delimiters and their literal forms -
+    #     the shape of finding F27, which no enumerated family contained. No '?', '&', '=': the serializer finding F03 would flood the events.
     from .core import cps
+    toks = ["%2f", "%3a", "%40", "%23", "%25", "%5c", "%2e", "%20", "%00", "%c3%a9", "/", ":", "@", "#", "\\", ".", " ", "8", "u", "\u00e9", "%", "[", "]"]
+    pres = ["x://", "x://u@", "x://u:p@", "x:", "x:/", "http://", "http://u@", "x://h:8/", "x://h/", "x:o", "file://", "http://h/", "x://h:8/#", "http://h/#", ""]
+    sf = os.path.join(run.scratch, "scan_c17.txt")
+    with open(sf, "w") as f:
+        f.write(json.dumps(json.dumps({"t": "scan", "pre": [cps(x) for x in pres], "tok": [cps(x) for x in toks], "n": 3 if q else 4, "sample": 2000})) + "\n")
+    bad, n = run.tlc_events(None, "scan", "idem", source_file=sf, chunks=14, events_args=["--names", ",".join(ALL_STRING_PROFILES)], timeout=1800)
+    nscan = sum(len(toks) ** k for k in range(0, (3 if q else 4) + 1)) * len(pres) * len(ALL_STRING_PROFILES)
+    run.coverage_notes["scan_pairs_explored_on_impl"] = nscan
+    run.samples.append("[scan/idem] %d (input, profile) pairs canonicalized twice by the driver; %d of them (law failures + every 2000th) validated by TLC" % (nscan, n))
+    absorb_events(run, bad, "scan")
+    run.distinct += n
+    # pinned reproducers of the open findings (re-run on every invocation; they print KNOWN-FINDING while they still fail)
     pf = os.path.join(run.scratch, "pinned_c17.txt")
     with open(pf, "w") as f:
         for s_ in ["http://h/?=&a", "http://h/?b=%2561&a=1", "http://h/?%2b"]:
